@@ -55,6 +55,9 @@ def upper_bound(tree, f=None, depth=0):
             return ord(v)
         return None
     if k == "param" and f is not None:
+        pb = (f.get("param_bounds") or {}).get(tree[1])
+        if pb is not None:
+            return pb
         return type_max(f["locals"][tree[1]]["ty"])
     if k == "local" and f is not None:
         return type_max(f["locals"][tree[1]]["ty"])
@@ -372,6 +375,29 @@ def inventory(prog, cg, entries, exact=None, prefix=None, ctx=False):
         seen, parent = cg.reachable_ctx(seeds)
     else:
         seen, parent = cg.reachable(entries)
+    # a closure handed to Option::map / map_or / and_then / filter / is_some_and gets the Option's payload as its
+    # argument: what bounds the payload bounds the parameter
+    for k in sorted(seen):
+        f = prog.fns.get(k)
+        if f is None or f.get("test"):
+            continue
+        ex_ = None
+        for bb in f["blocks"]:
+            t = bb["term"]
+            if t["k"] != "call" or bb["cleanup"]:
+                continue
+            ck = t["callee"].get("key") or ""
+            if not (ck.startswith("core::option::Option::") and ck.rsplit("::", 1)[-1] in ("map", "map_or", "map_or_else", "and_then", "filter", "is_some_and", "is_none_or")):
+                continue
+            ex_ = ex_ or Exprs(f)
+            recv = _resolve_initials(ex_, ex_.operand(t["args"][0]))
+            ub = upper_bound(("f", ("dc", recv, "Some"), "0"), f)
+            if ub is None or ub >= (1 << 31):
+                continue
+            for a in t["args"][1:]:
+                tr = ex_.operand(a)
+                if tr[0] == "agg" and tr[1] == "closure" and tr[2] in prog.fns:
+                    prog.fns[tr[2]].setdefault("param_bounds", {})[2] = ub
     sites = []
     for k in sorted(seen):
         f = prog.fns.get(k)
